@@ -10,7 +10,7 @@
    level t0 (cons_loop_as_incl), the old root being the same fold restricted to the left siblings
    (old_eval). The two folds to the old root are matched from the top with nodeh_inj only, and the
    new path is assembled from the terms of both proofs (transport_inner / transport_outer). *)
-From V Require Import Proofs.History Proofs.Linear Proofs.Unique Proofs.ConsLen Merkle.Sound Merkle.VerifyFixed Merkle.AHTArith.
+From V Require Import Proofs.History Proofs.Linear Proofs.Unique Proofs.ConsLen Merkle.Sound Merkle.VerifyFixed Merkle.AHTArith Merkle.ConsComplete.
 From Coq Require Import ZifyN ZifyNat ZifyBool.
 Open Scope N_scope.
 
@@ -355,7 +355,7 @@ Proof.
     destruct (N.eq_dec m n) as [<-|Nmn].
     + (* same size, non-empty proof: both folds coincide *)
       destruct (strip_odd_same (S (N.size_nat (m - 1))) (m - 1)) as [z Ez]. rewrite Ez in Es. injection Es as <- <-.
-      rewrite old_eval_same in V1. rewrite eval_incl_same in V2. assert (R = R') by congruence. subst R'.
+      rewrite old_eval_same in V1. rewrite eval_incl_same in V2. assert (ER : R = R') by congruence. rewrite <- ER.
       left. exists t. split; auto. unfold verify_inclusion.
       destruct (N.ltb_spec m i); [lia|]. destruct (N.eqb_spec i 0); [lia|]. cbn [orb].
       destruct ((i <? m) && (lenN t =? 0)) eqn:G7.
